@@ -143,6 +143,16 @@ def check_vector(v):
             if o != ("ok", exps):
                 bad.append({"what": "get_motif_scores differs from the per-window sum of matrix entries", "tags": dict(tags, op="get_motif_scores"),
                             "vector": v, "case": {"texts": texts, "matrix": mat.tolist()}, "expected": exps, "observed": o})
+            if k >= 3:
+                mat0 = np.zeros((A, k))
+                for l in (0, 1):
+                    mat0[mp[l], :] = v["mats0"][k - 1][l]
+                o = outcome(lambda: [[float(x) for x in row] for row in get_motif_scores(seqs, PWM(mat0, alpha)).tolist()])
+                n += 1
+                exps0 = [[float(x) for x in row] for row in v["scores0"][k - 1]]
+                if o != ("ok", exps0):
+                    bad.append({"what": "motif scores with a neutral position differ from the sum of the matrix entries under the window", "tags": dict(tags, op="get_motif_scores[neutral column]"),
+                                "vector": v, "case": {"texts": texts, "matrix": mat0.tolist()}, "expected": exps0, "observed": o})
             # minimisers
             for w in range(k, W + 1):
                 if total < w or mp[0] > mp[1]:
@@ -223,6 +233,32 @@ def validate_traces(ctx, traces):
     return bad, len(good)
 
 
+def check_label_order(job):
+    """k-mer counts of the same rows over two alphabets of equal size, in one order, in a process where nothing was counted before: the
+    counts must be reported under the k-mer texts of the alphabet in use (Windows.tla!Counts names k-mers by their letters)."""
+    import bionumpy as bnp
+    from bionumpy.sequence import count_kmers
+    order, v, k = job
+    rows = v["rows"]
+    bad, n = [], 0
+    for alpha in order:
+        mp = (2, 3)          # the third and fourth letters: G T, T G and G U in the three alphabets
+        texts = ["".join(alpha[mp[c]] for c in r) for r in rows]
+        want = {}
+        for km, c in v["counts"][k - 1]:
+            want["".join(alpha[mp[x]] for x in km)] = c
+
+        def counts():
+            ec = count_kmers(bnp.as_encoded_array(texts, _enc(alpha)), k)
+            return {str(lab): int(c) for lab, c in zip(ec.alphabet, np.asarray(ec.counts).ravel().tolist()) if c}
+        o = outcome(counts)
+        n += 1
+        if o != ("ok", want):
+            bad.append({"what": "k-mer counts are not reported under the k-mers of the alphabet in use", "tags": {"op": "count_kmers-labels", "alphabet": alpha, "order": "-".join(order), "window": k, "view": False},
+                        "vector": v, "case": {"texts": texts, "k": k}, "expected": want, "observed": o})
+    return {"n": n, "nt": ["labels|" + "-".join(order)], "bad": bad}
+
+
 def run(ctx):
     quick = ctx.tier == "quick"
     consts = {"NRows": 2, "MaxLen": 4, "W": 4, "Letters": [0, 1]} if quick else {"NRows": 3, "MaxLen": 4, "W": 5, "Letters": [0, 1]}
@@ -234,6 +270,10 @@ def run(ctx):
         v["_big"] = (i % (97 if quick else 23) == 5)        # a few states stand for inputs of more than a million windows
     ctx.sample({k: vectors[40][k] for k in ("rows", "kmers", "match")})
     ctx.absorb(core.pmap(check_vector, vectors, chunk=20))
+    # alphabets of equal size counted one after the other, every order in a process of its own
+    import itertools as _it
+    lv = next(v for v in vectors if len(v["rows"]) == 2 and all(len(r) >= 3 for r in v["rows"]) and len({tuple(r) for r in v["rows"]}) == 2)
+    ctx.absorb(core.pmap_isolated(check_label_order, [(list(p), lv, 2) for p in _it.permutations(["ACGT", "ACTG", "ACGU"], 2)]))
     ntr = 400 if quick else 4000
     traces = core.pmap(record_trace, [(i, ctx.seed * 7919 + i) for i in range(ntr)], chunk=50)
     bad, nval = validate_traces(ctx, traces)
